@@ -79,9 +79,17 @@ def weights_for(rng, edges, style):
 
 
 def rand_graph(rng, cyclic):
+    """DAG / cyclic digraph in which every node is on a source-to-sink walk / digraph with strongly connected parts that no
+    source reaches or that reach no sink; node names mimic internally derived names in 40% of the cases."""
     if cyclic:
-        return gen.rand_cyclic(rng, nmax=rng.choice([3, 5, 7]))
-    return gen.rand_dag(rng, nmax=rng.choice([3, 5, 6, 7]))
+        G = gen.rand_digraph_free(rng, nmax=rng.choice([3, 4, 5])) if rng.random() < 0.45 else gen.rand_cyclic(rng, nmax=rng.choice([3, 5, 7]))
+    else:
+        G = gen.rand_dag(rng, nmax=rng.choice([3, 5, 6, 7]))
+    return gen.mimic_names(rng, G, p=0.4)
+
+
+def rand_dag_named(rng, nmax):
+    return gen.mimic_names(rng, gen.rand_dag(rng, nmax=nmax), p=0.5)
 
 
 def exc_kind(e):
@@ -225,7 +233,7 @@ def run_dag_sets(ctx, n):
     reqs = []; meta = []
     for i in range(n):
         rng = ctx.rng("dagsets", i)
-        G = gen.rand_dag(rng, nmax=rng.choice([3, 5, 6, 7]))
+        G = rand_dag_named(rng, rng.choice([3, 5, 6, 7]))
         nodes = list(G.nodes())
         starts = [rng.choice(nodes)] if rng.random() < 0.2 else None
         ends = [rng.choice(nodes)] if rng.random() < 0.2 else None
@@ -347,8 +355,9 @@ def run_histories(ctx, n, mutate):
                 # pure query interleaved: must equal a fresh object's answer
                 got = st.compute_edge_max_reachable_value("flow")
                 fresh = fp.stDiGraph(o["G"]).compute_edge_max_reachable_value("flow")
-                strip = lambda d: sorted((("S" if a.startswith("source_") else a, "T" if b.startswith("sink_") else b), x) for (a, b), x in d.items())
-                if strip(got) != strip(fresh):
+                st2 = fp.stDiGraph(o["G"]); fresh = st2.compute_edge_max_reachable_value("flow")
+                strip = lambda d, g: sorted((("<S>" if a == g.source else a, "<T>" if b == g.sink else b), x) for (a, b), x in d.items())
+                if strip(got, st) != strip(fresh, st2):
                     ctx.report("compute_edge_max_reachable_value differs between a used and a fresh stDiGraph object",
                                {"kind": "hist", "edges": [list(e) for e in o["G"].edges()]}, concrete=True)
                 w1 = st.get_width(); w2 = fp.stDiGraph(o["G"]).get_width()
@@ -417,7 +426,7 @@ def run_dag_histories(ctx, n):
     props = ["reachable_nodes_from", "nodes_reaching", "reachable_edges_from", "reachable_edges_rev_from"]
     for i in range(n):
         rng = ctx.rng("daghist", i)
-        G = gen.rand_dag(rng, nmax=rng.choice([3, 5, 6]))
+        G = rand_dag_named(rng, rng.choice([3, 5, 6]))
         st = fp.stDAG(G); names = list(st.nodes()); edges = list(st.edges())
         f, b = adjacency(edges)
         def cold(k, v):
@@ -458,7 +467,7 @@ def run_dag_histories(ctx, n):
 
 # ----------------------------------------------------------------------------- E3 bottleneck path and peeling
 def flow_graph(rng, conserving):
-    G = gen.rand_dag(rng, nmax=rng.choice([3, 5, 6, 7]))
+    G = rand_dag_named(rng, rng.choice([3, 5, 6, 7]))
     big = rng.random() < 0.25
     if conserving:
         for e in G.edges(): G.edges[e]["flow"] = 0
@@ -751,7 +760,7 @@ def run_antichain(ctx, n):
     reqs = []; meta = []
     for i in range(n):
         rng = ctx.rng("antichain", i)
-        G = gen.rand_dag(rng, nmax=rng.choice([3, 5, 6, 7]))
+        G = gen.mimic_names(rng, gen.rand_dag(rng, nmax=rng.choice([2, 3, 5, 6, 7])), p=0.6)
         nodes = list(G.nodes())
         starts = [rng.choice(nodes)] if rng.random() < 0.15 else None
         ends = [rng.choice(nodes)] if rng.random() < 0.15 else None
@@ -801,7 +810,7 @@ def run_antichain(ctx, n):
         if plain is not None:
             true_plain = brute_max_antichain(edges, {e: 1 for e in edges}, reach_from)[0]
             if plain != true_plain:
-                ctx.report(f"get_width() asked after get_width(edges_to_ignore=...) returned {plain}; the width is {true_plain} (a cached value leaked)",
+                ctx.report(f"get_width() asked after get_width(edges_to_ignore=...) returned {plain}; the width is {true_plain} (wrong width, or a cached value leaked)",
                            {"kind": "antichain", "edges": [list(e) for e in G.edges()], "nodes": list(G.nodes()), "starts": starts, "ends": ends, "mode": "width",
                             "weights": [["S" if u == st.source else u, "T" if v == st.sink else v, 1] for u, v in edges], "true_maximum": true_plain,
                             "ignored_first": [["S" if u == st.source else u, "T" if v == st.sink else v] for u, v in ign]}, concrete=True)
@@ -856,7 +865,7 @@ def run_cyclic_width(ctx, n):
     reqs = []; meta = []
     for i in range(n):
         rng = ctx.rng("cwidth", i)
-        G = gen.rand_cyclic(rng, nmax=rng.choice([3, 5, 6]))
+        G = gen.mimic_names(rng, gen.rand_cyclic(rng, nmax=rng.choice([3, 5, 6])), p=0.5)
         try:
             st = fp.stDiGraph(G)
         except ValueError:
@@ -885,7 +894,11 @@ def run_cyclic_width(ctx, n):
 
 # ----------------------------------------------------------------------------- entry points
 def run(ctx):
-    ctx.rule = ("cases: random DAGs (gen.rand_dag, <= 7 nodes) and cyclic digraphs (gen.rand_cyclic, <= 9 nodes incl. source/sink) with integer "
+    ctx.rule = ("node names: plain (v0, n1, ...) or, in 40-60% of the graphs, names that mimic internally derived ones (gen.mimic_names: z<k>, z<k>_, "
+                "z<id-like digits><k>, source_<n>, sink_<n>, <v>.0/<v>.1, <k>, <k>_expanded, numeric-looking strings); digraphs incl. ones with a strongly "
+                "connected part that no source reaches / that reaches no sink (gen.rand_digraph_free); every node of the s-t graph is queried, the two "
+                "synthetic ones included. "
+                "cases: random DAGs (gen.rand_dag, <= 7 nodes) and cyclic digraphs (gen.rand_cyclic, <= 9 nodes incl. source/sink) with integer "
                 "weights from {0, 1..9, 2^40 +- k}, some edges without the attribute, optional additional starts/ends; histories of 4-14 operations "
                 "over 1-3 graph objects; flows = superpositions of 0-4 source-to-sink paths (conserving; integer, dyadic k/8, or inexact floats that conserve exactly in float arithmetic: fan-out / fan-in trees with trunk = float sum of the branches, filtered superpositions) or arbitrary non-negative weights; antichain "
                 "weight functions incl. all-zero, empty dict, 2^20 and 2^40. Non-trivial: >= 4 edges and a non-trivial SCC (cyclic) / >= 3 positive "
